@@ -18,7 +18,7 @@ RULE = ("inputs = for each base path (rendering of one universe Sid per path-typ
         "component, append '/x', '/', newline, an extension, remove the last component, swap the root for the other "
         "configuration's, a foreign path. Each evaluated cold, after the other configuration resolved the same string, and (paths "
         "holding '?' or ':') after the Sid that the result's string denotes was asked for its path. "
-        "distinct = distinct (path, configuration); non-trivial = differs from a valid path by <= k edits (all).")
+        "The whole space is run once per first-loaded path configuration. distinct = distinct (path, configuration, first-loaded); non-trivial = differs from a valid path by <= k edits (all).")
 ASSUMPTIONS = ["a typed result must satisfy str(result.path(c)) == p (the statement says 'exactly p'; '//' or a trailing '/' are other strings)"]
 
 
@@ -47,7 +47,12 @@ def other_values(ref, pr, typ, key, cur):
     if ref.templates[typ][i][1] is None:
         # free text: also characters that mean something in a Sid string (query, uri, or-list, glob)
         return [v for v in ["other", "my_hero", "what?", "x?%s=y" % key, "x?bogus=1", "x?%s=bogus!" % keys[0], "a:b", "a,b", "ab*", "ab c", ">"] if v != cur]
-    return [v for v in vals if v != cur][:2] or ["zz"]
+    # every member of the closed vocabulary, and every path-side spelling the configuration's value mapping knows for the key
+    # (a mapping may know more spellings than there are Sid values)
+    for pv in pr.mapping.get(key, {}):
+        if pv not in vals:
+            vals.append(pv)
+    return [v for v in vals if v != cur] or ["zz"]
 
 
 def single_edits(ref, pr, typ, toks, root, other_root):
@@ -269,11 +274,16 @@ def single_edits_tok(ref, pr, typ, toks):
 
 
 def plan(tier, seed):
-    return {"shards": [{"index": i, "count": 16} for i in range(16)]}
+    # the whole space once per "first touched" path configuration: a configuration module may derive its tables from
+    # another one's, so what it is depends on which was loaded first (as in C05)
+    return {"shards": [{"index": i, "count": 8, "first_index": f} for f in (0, -1) for i in range(8)]}     # first / last configured name
 
 
 def run_shard(sh):
     ref, prefs, owners, bases, names = setup(sh["tier"])
+    if "first_index" in sh:
+        sh = dict(sh, first=names[sh["first_index"]])
+    touch_first(sh.get("first"))
     rec = Recorder(sh["index"], sh["count"], sh["seed"])
     k = 1 if sh["tier"] == "c20" else 2
     for p, c in gen(ref, prefs, bases, names, k):
@@ -286,13 +296,26 @@ def run_shard(sh):
             viols, cls = check_case(ref, prefs, owners, [p, c, order])
             rec.case(cls + "/" + order, True, sample=[p, c, order])
             for v in viols:
-                rec.violation(v["signature"], "path", [p, c, order], v["observed"], v["expected"])
-    return rec.result()
+                rec.violation(v["signature"], "path", [p, c, order, sh.get("first")], v["observed"], v["expected"])
+    res = rec.result()
+    for lst in res["violations"].values():
+        for v in lst:
+            v["env"] = {"env": {"VERIF_FIRST_CONFIG": sh.get("first") or ""}}     # one confirmation process per first-loaded configuration
+    return res
+
+
+def touch_first(first):
+    """Load the given path configuration before any other one is touched (no-op once configurations are loaded)."""
+    if first:
+        from spil.sid.pathops.pathconfig import get_path_config
+        get_path_config(first)
 
 
 def replay_case(kind, case):
+    if len(case) > 3:
+        touch_first(case[3])
     ref, prefs, owners, bases, names = setup("thorough")
-    return check_case(ref, prefs, owners, case)[0]
+    return check_case(ref, prefs, owners, case[:3])[0]
 
 
 def coverage(m, tier, seed):
